@@ -276,3 +276,25 @@ Proof.
 Qed.
 
 End Complete.
+
+(* ---- the laws hold at Qc ---- *)
+From Coq Require Import QArith Qcanon.
+From OV Require Import Inst.QcInst.
+
+Lemma AQ_PivotLaws : PivotLaws AQ.
+Proof.
+  constructor.
+  - reflexivity.
+  - intros x. change (Qc_ltb (Qc_abs x) 0%Qc = false). unfold Qc_abs, Qc_ltb.
+    destruct (x ?= 0)%Qc eqn:E.
+    + now rewrite E.
+    + apply Qclt_alt in E. apply Qclt_minus_iff in E. rewrite Qcplus_0_l in E.
+      apply Qcgt_alt in E. replace (- x ?= 0)%Qc with Gt by (symmetry; exact E). reflexivity.
+    + now rewrite E.
+  - intros x Hx. change (Qc_ltb 0%Qc (Qc_abs x) = true). unfold Qc_abs, Qc_ltb.
+    destruct (x ?= 0)%Qc eqn:E.
+    + apply Qceq_alt in E. contradiction.
+    + apply Qclt_alt in E. apply Qclt_minus_iff in E. rewrite Qcplus_0_l in E.
+      apply Qclt_alt in E. replace (0 ?= - x)%Qc with Lt by (symmetry; exact E). reflexivity.
+    + apply Qcgt_alt in E. apply Qclt_alt in E. replace (0 ?= x)%Qc with Lt by (symmetry; exact E). reflexivity.
+Qed.
